@@ -21,6 +21,10 @@ pub enum ReadPlan {
     /// `json()` (false) or `json_utf8()` (true) into a `serde_json::Value`; "delivered" is the
     /// compact serialisation of the value
     Json(bool),
+    /// two-step use of one response: a few explicit read() calls of `step` bytes until `prefix`
+    /// bytes were taken, then a convenience reader for the rest (0 bytes(), 1 write_to(),
+    /// 2 read_to_end(), 3 split().2.bytes())
+    PrefixThen { prefix: usize, step: usize, then: u8 },
 }
 
 impl ReadPlan {
@@ -34,6 +38,7 @@ impl ReadPlan {
             ReadPlan::Loop { sizes, via_split } => format!("read-loop{:?}{}", sizes, if *via_split { " via split()" } else { "" }),
             ReadPlan::TextReader { sizes } => format!("text_reader-loop{:?}", sizes),
             ReadPlan::Json(utf8) => if *utf8 { "json_utf8()".into() } else { "json()".into() },
+            ReadPlan::PrefixThen { prefix, step, then } => format!("read({step}) until {prefix} bytes, then {}", ["bytes()", "write_to()", "read_to_end()", "split().2.bytes()"][*then as usize % 4]),
         }
     }
     pub fn is_loop(&self) -> bool {
@@ -44,7 +49,8 @@ impl ReadPlan {
 pub const READ_SIZES: &[usize] = &[0, 1, 2, 3, 7, 4096, 65_536, 1 << 20];
 
 pub fn random_plan(rng: &mut Rng) -> ReadPlan {
-    match rng.below(9) {
+    match rng.below(10) {
+        9 => ReadPlan::PrefixThen { prefix: *rng.pick(&[1usize, 2, 5, 100, 5000, 9000]), step: *rng.pick(&[1usize, 3, 64, 8192]), then: rng.below(4) as u8 },
         0 => ReadPlan::Bytes,
         1 => {
             if rng.bool() {
@@ -269,6 +275,49 @@ pub fn consume(resp: Response, plan: &ReadPlan, extra_after_end: usize) -> Consu
                     after_end: vec![],
                     after_end_bytes: vec![],
                 },
+            }
+        }
+        ReadPlan::PrefixThen { prefix, step, then } => {
+            let mut resp = resp;
+            let mut delivered = Vec::new();
+            let mut buf = vec![0u8; (*step).max(1)];
+            let mut calls = 0;
+            while delivered.len() < *prefix {
+                match resp.read(&mut buf) {
+                    Ok(0) => return Consumed { delivered, end: End::Clean, read_calls: calls, short_reads: 0, interrupted: 0, after_end: vec![], after_end_bytes: vec![] },
+                    Ok(n) => delivered.extend_from_slice(&buf[..n.min(buf.len())]),
+                    Err(e) if e.kind() == io::ErrorKind::Interrupted && calls < 1000 => {}
+                    Err(e) => return Consumed { delivered, end: End::Error(format!("{:?}: {}", e.kind(), e)), read_calls: calls, short_reads: 0, interrupted: 0, after_end: vec![], after_end_bytes: vec![] },
+                }
+                calls += 1;
+            }
+            let rest: Result<Vec<u8>, (Vec<u8>, String)> = match then % 4 {
+                0 => resp.bytes().map_err(|e| (vec![], format!("{e:?}"))),
+                1 => {
+                    let mut v = Vec::new();
+                    match resp.write_to(&mut v) {
+                        Ok(_) => Ok(v),
+                        Err(e) => Err((v, format!("{e:?}"))),
+                    }
+                }
+                2 => {
+                    let mut v = Vec::new();
+                    match resp.read_to_end(&mut v) {
+                        Ok(_) => Ok(v),
+                        Err(e) => Err((v, format!("{:?}: {}", e.kind(), e))),
+                    }
+                }
+                _ => resp.split().2.bytes().map_err(|e| (vec![], format!("{e:?}"))),
+            };
+            match rest {
+                Ok(v) => {
+                    delivered.extend_from_slice(&v);
+                    Consumed { delivered, end: End::Clean, read_calls: calls, short_reads: 0, interrupted: 0, after_end: vec![], after_end_bytes: vec![] }
+                }
+                Err((v, e)) => {
+                    delivered.extend_from_slice(&v);
+                    Consumed { delivered, end: End::Error(e), read_calls: calls, short_reads: 0, interrupted: 0, after_end: vec![], after_end_bytes: vec![] }
+                }
             }
         }
         ReadPlan::TextReader { sizes } => {
